@@ -5,14 +5,15 @@ package bftsim
 
 import (
 	"fmt"
+	"math/big"
 	"math/rand"
 	"strconv"
 	"strings"
 
 	"github.com/LiskHQ/lisk-engine/pkg/blockchain"
+	"github.com/LiskHQ/lisk-engine/pkg/consensus/liskbft"
 	"github.com/LiskHQ/lisk-engine/pkg/db"
 	"github.com/LiskHQ/lisk-engine/pkg/db/diffdb"
-	"github.com/LiskHQ/lisk-engine/pkg/consensus/liskbft"
 
 	"verifharness/corr"
 )
@@ -330,4 +331,189 @@ func GenChain(rng *rand.Rand, maxBlocks int) []string {
 		}
 	}
 	return ops
+}
+
+// ---- weight vectors near the uint64 limits ----
+
+// HeavyVals describes the validator set of a GenHeavy case for the model-free oracle.
+type HeavyVals struct {
+	Weights []uint64
+}
+
+// Total returns the exact (unbounded) aggregate weight.
+func (h HeavyVals) Total() *big.Int {
+	t := new(big.Int)
+	for _, w := range h.Weights {
+		t.Add(t, new(big.Int).SetUint64(w))
+	}
+	return t
+}
+
+// heavyWeights picks n weights whose aggregate is near 2^63 or near / beyond 2^64.
+func heavyWeights(rng *rand.Rand, n int) []uint64 {
+	const top = uint64(1) << 63
+	max := ^uint64(0)
+	small := func() uint64 { return uint64(rng.Intn(7)) }
+	ws := make([]uint64, n)
+	var target *big.Int // aggregate weight aimed at
+	switch rng.Intn(7) {
+	case 0: // just below / at / above 2^63
+		target = new(big.Int).SetUint64(top - 3 + small())
+	case 1: // just below 2^64
+		target = new(big.Int).SetUint64(max - small())
+	case 2: // at or just above 2^64: the uint64 sum wraps to a small number
+		target = new(big.Int).Add(new(big.Int).Lsh(big.NewInt(1), 64), big.NewInt(int64(small())))
+	case 3: // between 2^63 and 2^64
+		target = new(big.Int).SetUint64(top + rng.Uint64()%top)
+	case 4: // far beyond 2^64 (every validator heavy)
+		for i := range ws {
+			ws[i] = max - small()
+		}
+		return ws
+	case 5: // one validator carries 2^63 or more, the others are light
+		ws[0] = top + uint64(rng.Intn(3))*(top/2-1)
+		for i := 1; i < n; i++ {
+			ws[i] = 1 + small()
+		}
+		rng.Shuffle(n, func(i, j int) { ws[i], ws[j] = ws[j], ws[i] })
+		return ws
+	default: // random 64-bit weights
+		for i := range ws {
+			ws[i] = rng.Uint64()
+			if ws[i] == 0 {
+				ws[i] = 1
+			}
+		}
+		return ws
+	}
+	// split target into n positive parts, each a uint64
+	rest := new(big.Int).Set(target)
+	limit := new(big.Int).SetUint64(max)
+	for i := 0; i < n; i++ {
+		left := int64(n - 1 - i)
+		var part *big.Int
+		if left == 0 {
+			part = new(big.Int).Set(rest)
+		} else {
+			part = new(big.Int).Div(rest, big.NewInt(left+1))
+			if rng.Intn(2) == 0 { // uneven split
+				part.Add(part, new(big.Int).Div(part, big.NewInt(int64(2+rng.Intn(5)))))
+			}
+			part.Add(part, big.NewInt(int64(rng.Intn(5))-2))
+		}
+		if part.Cmp(limit) > 0 {
+			part.Set(limit)
+		}
+		if part.Sign() <= 0 {
+			part.SetInt64(1)
+		}
+		ws[i] = part.Uint64()
+		rest.Sub(rest, part)
+		if rest.Sign() < 0 {
+			rest.SetInt64(0)
+		}
+	}
+	return ws
+}
+
+// GenHeavy produces one op sequence whose parameter sets carry BFT weights near the uint64 limits
+// (aggregate near 2^63, near 2^64, beyond 2^64), with thresholds that are valid for the exact
+// aggregate or for the aggregate reduced modulo 2^64, followed by an honest round-robin chain
+// (truthful maxHeightGenerated, correct maxHeightPrevoted), so that every vote weight stays within
+// the aggregate weight. It also returns the weight vector of every `setparams` op (by op index).
+func GenHeavy(rng *rand.Rand, maxBlocks int) ([]string, map[int]HeavyVals) {
+	batch := 1 + rng.Intn(5)
+	genesis := uint32(rng.Intn(3))
+	ops := []string{fmt.Sprintf("reset %d %d", batch, genesis)}
+	vecs := map[int]HeavyVals{}
+	shadow := NewNode(batch, genesis)
+	defer shadow.Close()
+	run := func(op string) string {
+		ops = append(ops, op)
+		return shadow.Step(op)
+	}
+	two64 := new(big.Int).Lsh(big.NewInt(1), 64)
+	var active []*Val
+	setParams := func() bool {
+		n := 1 + rng.Intn(batch)
+		ws := heavyWeights(rng, n)
+		if rng.Intn(10) == 0 {
+			ws[rng.Intn(n)] = 0 // zero weight, possibly after the sum has overflowed
+		}
+		hv := HeavyVals{Weights: ws}
+		total := hv.Total()
+		base := new(big.Int).Set(total) // thresholds relative to the exact aggregate …
+		if rng.Intn(2) == 0 {
+			base.Mod(base, two64) // … or to the aggregate as a wrapped uint64
+		}
+		pick := func() uint64 {
+			third := new(big.Int).Div(base, big.NewInt(3))
+			var v *big.Int
+			switch rng.Intn(6) {
+			case 0:
+				v = new(big.Int).Add(third, big.NewInt(1))
+			case 1:
+				v = new(big.Int).Add(new(big.Int).Div(new(big.Int).Mul(base, big.NewInt(2)), big.NewInt(3)), big.NewInt(1))
+			case 2:
+				v = new(big.Int).Set(base)
+			case 3:
+				v = new(big.Int).Set(third) // one too low
+			case 4:
+				v = new(big.Int).Add(base, big.NewInt(1)) // one too high
+			default:
+				span := new(big.Int).Sub(base, third)
+				if span.Sign() <= 0 {
+					span.SetInt64(1)
+				}
+				v = new(big.Int).Add(third, big.NewInt(1))
+				v.Add(v, new(big.Int).Mod(new(big.Int).SetUint64(rng.Uint64()), span))
+			}
+			return new(big.Int).Mod(v, two64).Uint64()
+		}
+		vs := make([]*Val, n)
+		for i := range vs {
+			vs[i] = &Val{Addr: addr(i), Weight: ws[i]}
+		}
+		vecs[len(ops)] = hv
+		res := run(fmt.Sprintf("setparams %d %d %s", pick(), pick(), valsArg(vs)))
+		if !strings.HasPrefix(res, "ok") {
+			return false
+		}
+		run("setkeys " + keysArg(vs))
+		// validators that stay keep their bookkeeping
+		for _, v := range vs {
+			for _, a := range active {
+				if string(a.Addr) == string(v.Addr) {
+					v.MaxGen = a.MaxGen
+				}
+			}
+		}
+		active = vs
+		return true
+	}
+	for tries := 0; tries < 4 && !setParams(); tries++ {
+	}
+	if len(active) == 0 {
+		return ops, vecs
+	}
+	height := genesis
+	nBlocks := 1 + rng.Intn(maxBlocks)
+	for i := 0; i < nBlocks; i++ {
+		height++
+		mhp, _, _ := shadow.Heights()
+		g := active[i%len(active)]
+		res := run(fmt.Sprintf("block %d %s %d %d -", height, corr.Hex(g.Addr), g.MaxGen, mhp))
+		if strings.HasPrefix(res, "ok") {
+			g.MaxGen = height
+		} else {
+			height--
+		}
+		if rng.Intn(9) == 0 {
+			setParams()
+		}
+		if rng.Intn(9) == 0 {
+			run(fmt.Sprintf("getparams %d", rng.Intn(int(height)+3)))
+		}
+	}
+	return ops, vecs
 }
